@@ -151,14 +151,14 @@ pub fn exercise(text: &str, source: &str, globals: &BTreeMap<String, CVal>) -> R
         match r {
             LibRun::Panic(p) => return Err(Failure::new(format!("C05:{}:{}", mode, p.signature()), format!("{} execution panicked: {}", mode, p.message), d(json!({})))),
             LibRun::PollBound(_) => {
-                // slow or endless?  decide with a bound 15 times higher, one such run at a time
+                // slow or endless?  decide with a bound 4 times higher (a loop that stopped advancing may also grow memory), one such run at a time
                 static CONFIRM: std::sync::Mutex<()> = std::sync::Mutex::new(());
                 let _guard = CONFIRM.lock().unwrap_or_else(|e| e.into_inner());
-                let (again, polls) = run_capped(&file, &tree, &index, source, globals, &ExecOpts { lazy, debug: None }, 30_000_000);
+                let (again, polls) = run_capped(&file, &tree, &index, source, globals, &ExecOpts { lazy, debug: None }, 8_000_000);
                 match again {
                     LibRun::PollBound(n) => return Err(Failure::new(format!("C05:{}:poll-bound", mode), format!("{} execution polled the cancellation flag {} times without finishing (no longer advancing)", mode, n), d(json!({})))),
                     LibRun::Panic(p) => return Err(Failure::new(format!("C05:{}:{}", mode, p.signature()), format!("{} execution panicked: {}", mode, p.message), d(json!({})))),
-                    _ => labels.push(format!("{}:slow-but-finite({}-polls)", mode, if polls > 10_000_000 { ">10M" } else { "2M-10M" })),
+                    _ => labels.push(format!("{}:slow-but-finite({}-polls)", mode, if polls > 4_000_000 { ">4M" } else { "2M-4M" })),
                 }
             }
             LibRun::BadGraph(w) => return Err(Failure::new(format!("C05:{}:bad-graph", mode), w, d(json!({})))),
@@ -303,13 +303,17 @@ pub fn case(tape: &[u32]) -> CaseOutcome {
                 .chain(
                     [
                         "attribute sh = x => a = @m\n(module) @m { node @m.n attr (@m.n) sh = 1 }\n",
-                        "(module) @m { let x = 4294967296 }\n",
-                        "(module) @m { scan \"ab\" { \"a\" { print $3 } } }\n",
-                        "(module) @m { print $99999999999999999999999 }\n",
+                        "(module) @_m { let x = 4294967296 }\n",
+                        "(module) @_m { scan \"ab\" { \"a\" { print $3 } } }\n",
+                        "(module) @_m { print $99999999999999999999999 }\n",
                         "(module) @m { node @m.n attr (@m.n) v = (plus 4294967295 1) }\n",
                         "(module) @a @b @c { print @a, @b, @c }\n",
                         "(identifier)* @xs { print @xs }\n",
-                        "(module) @m { scan \"aXb\" { \"\\\\b\" { print $0 } } }\n",
+                        "(module) @_m { scan \"aXb\" { \"\\\\b\" { print $0 } } }\n",
+                        "(module) @_m { scan \"ab\" { \"a\" { print $0 } \"\\\\b\" { print $0 } } }\n",
+                        "(module) @_m { scan \"ab\" { \"a|\\\\b\" { print $0 } } }\n",
+                        "(module) @_m { scan \"x=2\" { \"\\\\b[a-z]*\" { print $0 } \"[0-9]+\" { print $0 } } }\n",
+                        "(module) @_m { scan \"ab cd\" { \"[a-z]+\" { scan $0 { \"a\" { } \"\\\\B\" { print $0 } } } \"^\" { } } }\n",
                     ]
                     .iter()
                     .map(|s| s.to_string()),
@@ -341,7 +345,7 @@ pub fn case(tape: &[u32]) -> CaseOutcome {
 
 pub fn spec(tier: &str) -> Spec {
     let mut s = Spec::new("C05", tier, 12_000, 150_000, 900);
-    s.rule = "four layers: (1) token- and byte-level mutations (delete / duplicate / swap / splice / replace / truncate, stray delimiters, huge numerals, unterminated strings and comments, multi-byte characters, keywords in wrong places) of generated programs (canonical or random layout, incl. patterns with three root captures or quantified roots) and of the reference's example files; (2) accepted generated programs with a high rate of risky choices and injected run-time faults, executed with the declared globals supplied, missing or wrongly typed; (3) hand-written hazards (recursive shorthands, captures in shorthands, out-of-range numerals and regex captures, overflow, assertion-only regexes); (4) scoped variables that refer to each other, possibly in a cycle (directly, through lists, calls, comprehensions and inherited lookups), used or unused. Sources: error-free, ERROR-bearing, empty and non-ASCII trees. Oracle: File::from_str returns; an accepted file executes in both modes under a poll bound of 2000000 (a breach is re-run under 30000000 before it is reported); every load and execution error renders with Display and display_pretty to non-empty text. A panic, a process abort (signal handler writes the candidate tapes) or a poll-bound breach is a violation. Inputs with bracket nesting > 64 are discarded and counted. Non-trivial: the input was executed, or rejected by the checker (not the parser). Distinct = fingerprint of (text, source).".into();
+    s.rule = "four layers: (1) token- and byte-level mutations (delete / duplicate / swap / splice / replace / truncate, stray delimiters, huge numerals, unterminated strings and comments, multi-byte characters, keywords in wrong places) of generated programs (canonical or random layout, incl. patterns with three root captures or quantified roots) and of the reference's example files; (2) accepted generated programs with a high rate of risky choices and injected run-time faults, executed with the declared globals supplied, missing or wrongly typed; (3) hand-written hazards (recursive shorthands, captures in shorthands, out-of-range numerals and regex captures, overflow, assertion-only regexes); (4) scoped variables that refer to each other, possibly in a cycle (directly, through lists, calls, comprehensions and inherited lookups), used or unused. Sources: error-free, ERROR-bearing, empty and non-ASCII trees. Oracle: File::from_str returns; an accepted file executes in both modes under a poll bound of 2000000 (a breach is re-run under 8000000 before it is reported); every load and execution error renders with Display and display_pretty to non-empty text. A panic, a process abort (signal handler writes the candidate tapes) or a poll-bound breach is a violation. Inputs with bracket nesting > 64 are discarded and counted. Non-trivial: the input was executed, or rejected by the checker (not the parser). Distinct = fingerprint of (text, source).".into();
     s.assumptions = vec!["a run that neither polls nor returns can only be stopped by the driver's wall-clock timeout (reported as exit 2)".into()];
     s
 }
